@@ -576,6 +576,10 @@ class Gen:
         use_wild = len(order) > 1 and r.random() < 0.35
         cut = r.randint(1, len(order) - 1) if use_wild else len(order)
         for i, (v, ts) in enumerate(order):
+            if use_wild and i > 0 and r.random() < 0.25:
+                # a guarded `_` arm in front of the remaining arms (an unguarded `_` arm ends the match)
+                g = self.temp_bool(d) if r.random() < 0.5 else self.expr("bool", d - 1)
+                arms.append({"v": "_", "bs": [], "g": [g], "b": self.expr(ty, d - 1)})
             if use_wild and i == cut:
                 arms.append({"v": "_", "bs": [], "g": [], "b": self.arm_body(ty, d - 1)})
                 break
@@ -585,7 +589,9 @@ class Gen:
                 self.declare(b, bt)
             # optionally a guarded arm first, then the unguarded one for the same variant
             if r.random() < 0.3:
-                g = self.expr("bool", d - 1)
+                # the guard may create temporaries that own something (released whether or not the guard holds,
+                # and not at all on the paths that never reach this arm)
+                g = self.temp_bool(d) if r.random() < 0.4 else self.expr("bool", d - 1)
                 arms.append({"v": v, "bs": bs, "g": [g], "b": self.expr(ty, d - 1)})
                 self.pop()
                 bs2 = [self.fresh("m") for _ in ts]
